@@ -5,6 +5,7 @@ Driver ops for C14 (stochastic / conditional plans): `mixture` (closed form), `p
 Samples are `|`-separated, conditions within a sample `;`-separated, entries `,`-separated.
 -/
 import Driver.Ops.C05
+import ZepidVerif.Gen.GfStoch
 namespace ZVD
 open ZV ZV.Std
 
@@ -36,20 +37,47 @@ def opGfMc (a : Args) : Except String String := do
   let ms := chosen.map fun ch => Stoch.mcMean l Q (fun q => q) t.mem (fun r => Stoch.gfAssign ch r.i)
   pure s!"ok ms={showList sh ms} m={sh (Stoch.meanOf ms)}"
 
+/-- `TimeFixedGFormula.fit_stochastic` **from the definition regenerated from its text** (`Gen.gf_stoch_fit`): rows with
+    `obs=` (outcome observed), `hascond`, `hasw`, `pm` (predict_missing), `tgt` (the `standardize` string), `ps` / `masks`
+    (listed probabilities / conditions; empty for an unconditional plan), `chosen` = the draws (resamples `|`, calls `;`).
+    `mm` = the hand model (`mcMean` over the target rows with an observed outcome unless `pm`, `gfAssign`, `meanOf`). -/
+def opGfStoch (a : Args) : Except String String := do
+  let l : List (Row F) ← parseRows a
+  let t ← need a "tgt" parseTgt
+  let hasCond ← need a "hascond" parseBool
+  let hasW ← need a "hasw" parseBool
+  let pm ← need a "pm" parseBool
+  let q1 : Array F ← vals a "q1"
+  let q0 : Array F ← vals a "q0"
+  let chosen ← need a "chosen" (parse3 parseNat)
+  let ps : List F ← if hasCond then need a "ps" (parseList (Carrier.parse (F := F))) else pure []
+  let ms : List (List Bool) ← if hasCond then need a "masks" (parseLists_C05 parseBool) else pure []
+  let masks : List (Nat → Bool) := ms.map fun m => let arr := m.toArray; fun i => arr.getD i false
+  let Q := fun (r : Row F) (arm : Bool) => if arm then look q1 r else look q0 r
+  let m := Gen.gf_stoch_fit hasCond hasW pm t.str ps masks l Q chosen
+  let tm := fun (r : Row F) => t.mem r && (pm || r.obs)
+  let ms := chosen.map fun ch => Stoch.mcMean l Q (fun q => q) tm (fun r => Stoch.gfAssign ch r.i)
+  pure s!"ok m={sh m} mm={sh (Stoch.meanOf ms)}"
+
 end
 
 def floorNatFloat (x : Float) : Nat := x.floor.toUInt64.toNat
 def floorNatRat (x : Rat) : Nat := x.floor.toNat
 
+/-- `size=` handed to `np.random.choice`, from the regenerated text of the call (`cond=1`: the call inside the loop over
+    the conditions, else the unconditional one) -/
 def opPlanSize (a : Args) : Except String String := do
   let n ← need a "n" parseNat
+  let cond ← match a.get? "cond" with
+    | some _ => need a "cond" parseBool
+    | none => pure false
   match a.get? "c" with
   | some "f" => do
     let p ← fl a "p"
-    pure s!"ok size={Stoch.planSize floorNatFloat p n}"
+    pure s!"ok size={if cond then Gen.gf_stoch_size_cond floorNatFloat p n else Gen.gf_stoch_size_uncond floorNatFloat p n}"
   | _ => do
     let p ← rt a "p"
-    pure s!"ok size={Stoch.planSize floorNatRat p n}"
+    pure s!"ok size={if cond then Gen.gf_stoch_size_cond floorNatRat p n else Gen.gf_stoch_size_uncond floorNatRat p n}"
 
 /-- StochasticTMLE Monte-Carlo step at Float: masks per condition (listing order), Bernoulli draw vectors per
     resample per condition, fluctuation parameter `eps` -/
@@ -75,6 +103,7 @@ def opTmleMc (a : Args) : Except String String := do
 def opsC14 : OpTable := [
   ("mixture", atCarrier (opMixture (F := Rat)) (opMixture (F := Float))),
   ("gfmc", atCarrier (opGfMc (F := Rat)) (opGfMc (F := Float))),
+  ("gfstoch", atCarrier (opGfStoch (F := Rat)) (opGfStoch (F := Float))),
   ("plansize", opPlanSize),
   ("tmlemc", opTmleMc)]
 
